@@ -10,11 +10,12 @@ From CV Require Import Conc.Sched.
 
 Definition Lcmds : nat := 0.   Definition Lmax : nat := 1.
 Definition Lfbs : nat := 2.    Definition Lfbmax : nat := 3.   Definition Lfbdis : nat := 4.
+Definition Ltimeout : nat := 5.
 (* markers *)
 Definition Menter : nat := 0.  Definition Mexit : nat := 1.
 Definition Mfenter : nat := 2. Definition Mfexit : nat := 3.  Definition Mdone : nat := 4.
 
-Record gshared := { g_cmds : Z; g_max : Z; g_fbs : Z; g_fbmax : Z; g_fbdis : bool }.
+Record gshared := { g_cmds : Z; g_max : Z; g_fbs : Z; g_fbmax : Z; g_fbdis : bool; g_timeout : Z }.
 
 (* how the user's functions end *)
 Inductive rres := RunOk | RunErr | RunPanic.
@@ -27,7 +28,7 @@ Inductive gpc :=
 | GStart
 | GAdded (v : Z)                 (* concurrentCommands.Add(1) returned v *)
 | GRejecting (v : Z)                                (* limit exceeded: about to release *)
-| GEnter (v : Z) | GInFlight (v : Z) | GExited (v : Z)   (* runFunc about to be entered / running / returned; v as observed by Add *)
+| GEnter (v : Z) | GTimed (v tmo : Z) | GInFlight (v : Z) | GExited (v : Z)   (* limit passed: about to read Execution.Timeout / timeout tmo read, runFunc about to be entered / running / returned; v as observed by Add *)
 | GFbCheck (err : Z)             (* run step ended with error err: fallback() starts *)
 | GFbAdd (err : Z) | GFbAdded (err w : Z) | GFbRejecting (w : Z)
 | GFbEnter (w : Z) | GFbInFlight (w : Z) | GFbExited (w r : Z)
@@ -36,11 +37,11 @@ Inductive gpc :=
 
 Inductive glocal :=
 | Caller (run : rres) (fb : fbres) (pc : gpc)
-| Setter (max fbmax : Z) (fbdis : bool) (k : nat)     (* k stores done *)
+| Setter (tmo max fbmax : Z) (fbdis : bool) (k : nat)     (* k stores done *)
 | Reader (k : nat).
 
-Definition set_cmds s v := {| g_cmds := v; g_max := g_max s; g_fbs := g_fbs s; g_fbmax := g_fbmax s; g_fbdis := g_fbdis s |}.
-Definition set_fbs s v := {| g_cmds := g_cmds s; g_max := g_max s; g_fbs := v; g_fbmax := g_fbmax s; g_fbdis := g_fbdis s |}.
+Definition set_cmds s v := {| g_cmds := v; g_max := g_max s; g_fbs := g_fbs s; g_fbmax := g_fbmax s; g_fbdis := g_fbdis s; g_timeout := g_timeout s |}.
+Definition set_fbs s v := {| g_cmds := g_cmds s; g_max := g_max s; g_fbs := v; g_fbmax := g_fbmax s; g_fbdis := g_fbdis s; g_timeout := g_timeout s |}.
 Definition bz (b : bool) : Z := if b then 1 else 0.
 
 Definition gstep1 (s : gshared) (l : glocal) : option (gshared * glocal * lab) :=
@@ -53,7 +54,8 @@ Definition gstep1 (s : gshared) (l : glocal) : option (gshared * glocal * lab) :
           let m := g_max s in
           Some (s, next (if (0 <=? m) && (m <? v) then GRejecting v else GEnter v), LAtomic Lmax OpLoad 0 m)
       | GRejecting _ => Some (set_cmds s (g_cmds s - 1), next (GFbCheck R_throttled), LAtomic Lcmds OpAdd (-1) (g_cmds s - 1))
-      | GEnter v => Some (s, next (GInFlight v), LMark Menter 0)
+      | GEnter v => Some (s, next (GTimed v (g_timeout s)), LAtomic Ltimeout OpLoad 0 (g_timeout s))
+      | GTimed v _ => Some (s, next (GInFlight v), LMark Menter 0)
       | GInFlight v => Some (s, next (GExited v), LMark Mexit (match run with RunOk => 0 | RunErr => 1 | RunPanic => 2 end))
       | GExited _ =>
           Some (set_cmds s (g_cmds s - 1),
@@ -77,14 +79,16 @@ Definition gstep1 (s : gshared) (l : glocal) : option (gshared * glocal * lab) :
       | GFinish r => Some (s, next (GDone r), LMark Mdone r)
       | GDone _ => None
       end
-  | Setter m fm fd k =>
+  | Setter tm m fm fd k =>
       match k with
-      | 0%nat => Some ({| g_cmds := g_cmds s; g_max := m; g_fbs := g_fbs s; g_fbmax := g_fbmax s; g_fbdis := g_fbdis s |},
-                       Setter m fm fd 1, LAtomic Lmax OpStore m 0)
-      | 1%nat => Some ({| g_cmds := g_cmds s; g_max := g_max s; g_fbs := g_fbs s; g_fbmax := g_fbmax s; g_fbdis := fd |},
-                       Setter m fm fd 2, LAtomic Lfbdis OpStore (bz fd) 0)
-      | 2%nat => Some ({| g_cmds := g_cmds s; g_max := g_max s; g_fbs := g_fbs s; g_fbmax := fm; g_fbdis := g_fbdis s |},
-                       Setter m fm fd 3, LAtomic Lfbmax OpStore fm 0)
+      | 0%nat => Some ({| g_cmds := g_cmds s; g_max := g_max s; g_fbs := g_fbs s; g_fbmax := g_fbmax s; g_fbdis := g_fbdis s; g_timeout := tm |},
+                       Setter tm m fm fd 1, LAtomic Ltimeout OpStore tm 0)
+      | 1%nat => Some ({| g_cmds := g_cmds s; g_max := m; g_fbs := g_fbs s; g_fbmax := g_fbmax s; g_fbdis := g_fbdis s; g_timeout := g_timeout s |},
+                       Setter tm m fm fd 2, LAtomic Lmax OpStore m 0)
+      | 2%nat => Some ({| g_cmds := g_cmds s; g_max := g_max s; g_fbs := g_fbs s; g_fbmax := g_fbmax s; g_fbdis := fd; g_timeout := g_timeout s |},
+                       Setter tm m fm fd 3, LAtomic Lfbdis OpStore (bz fd) 0)
+      | 3%nat => Some ({| g_cmds := g_cmds s; g_max := g_max s; g_fbs := g_fbs s; g_fbmax := fm; g_fbdis := g_fbdis s; g_timeout := g_timeout s |},
+                       Setter tm m fm fd 4, LAtomic Lfbmax OpStore fm 0)
       | _ => None
       end
   | Reader k =>
@@ -95,8 +99,8 @@ Definition gstep1 (s : gshared) (l : glocal) : option (gshared * glocal * lab) :
       end
   end.
 
-Definition ginit (max fbmax : Z) (fbdis : bool) : gshared :=
-  {| g_cmds := 0; g_max := max; g_fbs := 0; g_fbmax := fbmax; g_fbdis := fbdis |}.
+Definition ginit (tmo max fbmax : Z) (fbdis : bool) : gshared :=
+  {| g_cmds := 0; g_max := max; g_fbs := 0; g_fbmax := fbmax; g_fbdis := fbdis; g_timeout := tmo |}.
 
 (* ---------- correspondence ---------- *)
 Definition gauge_case : Type := nat * gshared * list glocal * list (nat * lab).
@@ -115,16 +119,16 @@ Definition run_inflight (l : glocal) : bool :=
 Definition fb_inflight (l : glocal) : bool :=
   match l with Caller _ _ (GFbInFlight _) => true | _ => false end.
 Definition is_caller (l : glocal) : bool := match l with Caller _ _ _ => true | _ => false end.
-Definition is_setter (l : glocal) : bool := match l with Setter _ _ _ _ => true | _ => false end.
+Definition is_setter (l : glocal) : bool := match l with Setter _ _ _ _ _ => true | _ => false end.
 Definition finished (l : glocal) : bool :=
-  match l with Caller _ _ (GDone _) => true | Setter _ _ _ 3%nat => true | Reader 2%nat => true | _ => false end.
+  match l with Caller _ _ (GDone _) => true | Setter _ _ _ _ 4%nat => true | Reader 2%nat => true | _ => false end.
 Definition fresh (l : glocal) : bool :=
-  match l with Caller _ _ GStart => true | Setter _ _ _ 0%nat => true | Reader 0%nat => true | _ => false end.
+  match l with Caller _ _ GStart => true | Setter _ _ _ _ 0%nat => true | Reader 0%nat => true | _ => false end.
 Definition result_of (l : glocal) : option Z := match l with Caller _ _ (GDone r) => Some r | _ => None end.
 (* between the Add(1) and the Add(-1) on a gauge *)
 Definition holds_run (l : glocal) : bool :=
   match l with
-  | Caller _ _ (GAdded _ | GRejecting _ | GEnter _ | GInFlight _ | GExited _) => true
+  | Caller _ _ (GAdded _ | GRejecting _ | GEnter _ | GTimed _ _ | GInFlight _ | GExited _) => true
   | _ => false
   end.
 Definition holds_fb (l : glocal) : bool :=
